@@ -96,8 +96,9 @@ class Ctx:
 
     def suite(self, name):
         if name not in self._suites:
-            if name.startswith(('rel:', 'min:')):
-                f = facts.load(os.path.join(self.dir, name[:3]), 'm-' + name[4:])
+            if ':' in name:
+                sub, base = name.split(':', 1)        # rel: / min: / vg: — fact sets of other build configurations or roots
+                f = facts.load(os.path.join(self.dir, sub), 'm-' + base)
                 f = dict(f)
                 f['suite'] = name
                 self._suites[name] = interp.Suite(f)
